@@ -73,7 +73,12 @@ where
     let vi: (&T, usize) = a
         .iter()
         .zip(0..)
-        .max_by(|x, y| x.0.abs().partial_cmp(&y.0.abs()).unwrap())
+        // values that cannot be ordered (NaN from a singular system) are treated as equal instead of panicking
+        .max_by(|x, y| {
+            x.0.abs()
+                .partial_cmp(&y.0.abs())
+                .unwrap_or(std::cmp::Ordering::Equal)
+        })
         .unwrap();
     vi.1
 }
